@@ -412,8 +412,6 @@ def rule_shallow_water(chk, prog):
   grid = A_(A_(selft, 'coords'), 'horizontal')
   st = S('state')
   # splitting of the stacked transform: b, g, e = split(to_modal(concat([nodal_b, nodal_g, e[None]])), [2, 4])
-  bge = env.get('bge')
-  nodal = {n: env.get(n) for n in ('nodal_b', 'nodal_g', 'nodal_e')}
   A = alg.Algebra(ev)
   nu = [t for t in sym.walk(v) if t.k == 'call' and util.callee_name(t) == 'to_nodal']
   ns = [t for t in sym.walk(v) if t.k == 'call' and util.callee_name(t) == 'state_to_nodal']
